@@ -95,6 +95,24 @@ pub fn c08_specs(quick: bool) -> Vec<EwSpec> {
         env.fates = DF_ALL; env.deltas = &[100, 2000]; env.fair_delta = 500; env.long_hold = 4; env.app_menu = vec![Act::SDisconnectNow(0), Act::CDisconnectNow(0), Act::Connect(0)];
         scs.push(sc("C08.full-server", &cfg, script, env, d, EO_C08));
     }
+    // a server at its total limit whose only entry is on its way out (closing: the application has kicked a peer that died; closed: the
+    // linger after an acknowledged disconnect) while a newcomer asks for a slot, after which the first address comes back: whatever
+    // the server does about the newcomer, the first connection's event stream must end before that address is reported again
+    for (mname, mid) in [("kicked-dead-peer", vec![at(6, Act::Forget(0)), at(8, Act::SDisconnectNow(0))]), ("kicked-dead-peer-flushing", vec![at(6, Act::Forget(0)), at(7, Act::SSend(0, 0, SendMode::Reliable, 300)), at(8, Act::SDisconnect(0))]),
+                         ("client-left", vec![at(8, Act::CDisconnectNow(0)), at(10, Act::Forget(0))]), ("server-closed", vec![at(8, Act::SDisconnectNow(0)), at(12, Act::Forget(0))])] {
+        for (ma, mt) in [(1usize, 1usize), (2, 1), (32, 1), (2, 2)] {
+            for back in [14usize, 24, 60] {
+                let mut cfg = EwCfg::new(3); cfg.max_active = ma; cfg.max_total = mt;
+                let mut script = echo_script(0);
+                script.extend(mid.clone());
+                if mt == 2 { script.push(at(0, Act::Connect(2))); }
+                script.extend(vec![at(10, Act::Connect(1)), after_c(1, 1, Act::CSend(1, 0, SendMode::Reliable, 100)), after_c(1, 6, Act::CDisconnectNow(1)), at(back, Act::Connect(0)), at(back + 8, Act::CSend(0, 0, SendMode::Reliable, 70))]);
+                let mut env = EwEnv::basic(4, 140);
+                env.dev_start = 8; env.fates = DF_LOSS; env.deltas = &[100, 2000]; env.fair_delta = 500; env.stop_when_done = false;
+                scs.push(sc(&format!("C08.full-server.entry-on-its-way-out.{}.back{}", mname, back), &cfg, script, env, if quick { 1 } else { 2 }, EO_C08));
+            }
+        }
+    }
     let _ = (d, timeouts);
     scs
 }
@@ -388,6 +406,22 @@ pub fn c12_api_specs(quick: bool) -> Vec<EwSpec> {
         env.fates = &[DFate::Deliver, DFate::Hold2, DFate::Drop, DFate::HoldLong]; env.fate_types = &[0, 1, 2]; env.fates_free = true; env.long_hold = 5; env.deltas = &[100]; env.fair_delta = 100; env.stop_when_done = false;
         v.push(EwSpec { tag: format!("C12.api.pending-client.{}", name), cfg, script: Arc::new(script), env, d: if quick { 0 } else { 1 }, oracles: EO_C12 | EO_C08, n_raw: 0 });
     }
+    // several clients on one server: while one connection ends (disconnect by either side, drop, a vanished client timing out) the server
+    // application hands an Unreliable and a TimeSensitive packet to each of the others in the same round (before the first RTT sample a
+    // flush admits one datagram, so the TimeSensitive one cannot start and must never be transmitted); every order of connecting
+    for (ename, ending) in [("client-disconnects", Act::CDisconnectNow(0)), ("server-disconnects", Act::SDisconnectNow(0)), ("server-drops", Act::SDrop(0)), ("client-vanishes", Act::Forget(0))] {
+        for order in 0..3usize {
+            let mut cfg = EwCfg::new(3);
+            for c in cfg.clients.iter_mut() { c.active_timeout_ms = 3000; } cfg.server.active_timeout_ms = 3000;
+            // the client whose connection ends connects first, second or last
+            let mut script: Vec<EwOp> = (0..3usize).map(|i| at(if i == 0 { order } else if i <= order { i - 1 } else { i }, Act::Connect(i))).collect();
+            script.push(at(8, ending.clone()));
+            for r in [8usize, 9, 10, 38, 39, 40, 41] { for i in 1..3usize { script.push(at(r, Act::SSend(i, 0, Unreliable, 40 + r))); script.push(at(r, Act::SSend(i, 0, TimeSensitive, 140 + r))); } }
+            let mut env = EwEnv::basic(5, 60);
+            env.fates = DF_BASIC; env.fate_types = &[4, 5]; env.deltas = &[100, 0, 2000]; env.dev_start = 7; env.fair_delta = 100; env.stop_when_done = false;
+            v.push(EwSpec { tag: format!("C12.api.three-clients.{}.{}", ename, order), cfg, script: Arc::new(script), env, d: if quick { 2 } else { 3 }, oracles: EO_C12 | EO_C08, n_raw: 0 });
+        }
+    }
     v
 }
 
@@ -431,6 +465,11 @@ fn forged_alphabet() -> Vec<(&'static str, bool, Vec<u8>)> {
         ("forged SYN-ACK, wrong nonce_ack, receive alloc 0", true, fw(Frame::HandshakeSynAckFrame(HandshakeSynAckFrame { nonce_ack: 0x9999_9999, nonce: 0x8888_8888, max_receive_rate: 1_000_000, max_packet_size: 0, max_receive_alloc: 0 }))),
         ("forged error ServerFull, client nonce + 1", true, err(0x1111_1112, HandshakeErrorType::ServerFull)),
         ("forged error Version, nonce 2^32-1", true, err(0xFFFF_FFFF, HandshakeErrorType::Version)),
+        // refusals that do carry the client's nonce (a refusal of its first SYN that the network delivers late, after a retransmitted SYN was
+        // admitted; or a duplicate): they end a handshake that is still pending, and must not touch a connection that is established
+        ("stale error ServerFull, client's nonce", true, err(0x1111_1111, HandshakeErrorType::ServerFull)),
+        ("stale error Config, client's nonce", true, err(0x1111_1111, HandshakeErrorType::Config)),
+        ("stale error Version, client's nonce", true, err(0x1111_1111, HandshakeErrorType::Version)),
     ]
 }
 
@@ -455,6 +494,9 @@ fn forger_scenario(tag: &str, cfg: EwCfg, script: Vec<EwOp>, env: EwEnv, window:
         // against an existing handshake or connection: such injections are not compared.
         if r > 0 && alpha[k].0.starts_with("spoofed SYN,") && (r < 2 || !base_tr.obs[(r - 2).min(base_tr.obs.len() - 1)].s_known[0] || !base_tr.obs[(r - 1).min(base_tr.obs.len() - 1)].s_known[0]) {
             return ExecResult { outcome: 7, ..Default::default() };
+        }
+        if r > 0 && alpha[k].0.starts_with("stale error") && (r < 2 || !base_tr.obs[(r - 2).min(base_tr.obs.len() - 1)].c_active[0] || !base_tr.obs[(r - 1).min(base_tr.obs.len() - 1)].c_active[0]) {
+            return ExecResult { outcome: 8, ..Default::default() };
         }
         let mut c1 = Chooser::new(vec![], vec![]);
         let tr = run_ew(&cfg, &s2, &env, &mut c1);
@@ -481,7 +523,8 @@ fn forger_scenario(tag: &str, cfg: EwCfg, script: Vec<EwOp>, env: EwEnv, window:
 pub fn c17_parts(quick: bool) -> (Vec<EwSpec>, Vec<Scenario>) {
     let mut custom: Vec<Scenario> = Vec::new();
     let mut scs: Vec<EwSpec> = Vec::new();
-    let limits: Vec<(usize, usize)> = if quick { vec![(1, 1), (1, 2), (2, 2), (1, 3), (2, 3)] } else { vec![(1, 1), (1, 2), (1, 3), (2, 2), (2, 3), (2, 4), (3, 3)] };
+    // (max_active, max_total); Config::is_valid() also accepts a total limit below the active limit (an application that lowers only max_total_connections)
+    let limits: Vec<(usize, usize)> = if quick { vec![(1, 1), (1, 2), (2, 2), (1, 3), (2, 3), (3, 2), (32, 1)] } else { vec![(1, 1), (1, 2), (1, 3), (2, 2), (2, 3), (2, 4), (3, 3), (3, 2), (2, 1), (32, 1), (32, 2)] };
     for (ma, mt) in limits {
         for nc in [2usize, 3, 4] {
             if quick && nc == 4 && !(ma == 1 && mt == 2) { continue; }
@@ -508,6 +551,19 @@ pub fn c17_parts(quick: bool) -> (Vec<EwSpec>, Vec<Scenario>) {
                 env.fates = DF_LOSS; env.fate_types = &[0, 1, 2, 4, 5]; env.deltas = &[100, 2000]; env.fair_delta = 500; env.stop_when_done = false;
                 scs.push(sc(&format!("C17.ending.{}", ename), &cfg, s2, env, if quick { 1 } else { 2 }, EO_C17 | EO_READMIT));
             }
+        }
+    }
+    // a connection ends by disconnects that cross (both applications close at the same time, in either mode) while another connection
+    // stays established; the freed slot is taken by a newcomer, and the one after that must be refused as long as the limit is reached
+    for (cname, calls) in [("now-now", vec![Act::SDisconnectNow(0), Act::CDisconnectNow(0)]), ("now-flush", vec![Act::SDisconnectNow(0), Act::CDisconnect(0)]), ("flush-now", vec![Act::SDisconnect(0), Act::CDisconnectNow(0)]), ("flush-flush", vec![Act::SDisconnect(0), Act::CDisconnect(0)])] {
+        for (ma, mt) in [(2usize, 4usize), (2, 8)] {
+            let mut cfg = EwCfg::new(5); cfg.max_active = ma; cfg.max_total = mt;
+            let mut script = vec![at(0, Act::Connect(0)), at(0, Act::Connect(1)), after_c(1, 2, Act::CSend(1, 0, SendMode::Reliable, 50))];
+            for c in calls.iter() { script.push(after_s(0, 3, c.clone())); }
+            script.extend([at(14, Act::Connect(2)), at(20, Act::Connect(3)), at(26, Act::Connect(4)), at(60, Act::CDisconnectNow(1)), at(60, Act::CDisconnectNow(2))]);
+            let mut env = EwEnv::basic(6, 100);
+            env.fates = DF_BASIC; env.fate_types = &[4, 5]; env.deltas = &[100, 2000]; env.fair_delta = 500; env.stop_when_done = false;
+            scs.push(sc(&format!("C17.crossing-disconnects-then-newcomers.{}", cname), &cfg, script, env, if quick { 1 } else { 2 }, EO_C17 | EO_C08));
         }
     }
     // the server disconnects a client, the client acknowledges, and the same address connects again 5 / 15 / 23 s later (the disconnect
@@ -611,7 +667,7 @@ pub fn raw_alphabet_rep() -> Vec<(String, Vec<u8>, usize)> {
     let base = raw_alphabet();
     let mut v: Vec<(String, Vec<u8>, usize)> = base.iter().map(|(n, b)| (n.to_string(), b.clone(), 1)).collect();
     for (n, b) in base.iter() {
-        if ["valid SYN", "SYN other nonce", "SYN 1471 bytes", "SYN wrong version", "SYN-ACK", "ACK wrong nonce", "error", "disconnect", "disconnect-ack", "data", "sync", "ack"].contains(n) { v.push((format!("{} x200", n), b.clone(), 200)); }
+        if ["valid SYN", "SYN other nonce", "SYN 1471 bytes", "SYN wrong version", "SYN wrong version 10 bytes", "SYN-ACK", "ACK wrong nonce", "error", "disconnect", "disconnect-ack", "data", "sync", "ack"].contains(n) { v.push((format!("{} x200", n), b.clone(), 200)); }
     }
     v
 }
@@ -628,6 +684,10 @@ pub fn raw_alphabet() -> Vec<(&'static str, Vec<u8>)> {
         ("SYN 100 bytes", short_syn(100)),
         ("SYN 22 bytes", short_syn(22)),
         ("SYN wrong version", syn(uflow::PROTOCOL_VERSION + 1, 0x5151, 1000, 1_000_000)),
+        // two reasons for refusal at once: undersized requests of a foreign version (version byte + nonce only; one limit field; all but the last byte)
+        ("SYN wrong version 10 bytes", { let full = syn(uflow::PROTOCOL_VERSION + 1, 0x5151, 1000, 1_000_000); let mut b = full[..6].to_vec(); b.extend_from_slice(&[0; 4]); crc_fix(b) }),
+        ("SYN version 0 22 bytes", { let full = syn(0, 0x5151, 1000, 1_000_000); let mut b = full[..18].to_vec(); b.extend_from_slice(&[0; 4]); crc_fix(b) }),
+        ("SYN wrong version 1471 bytes", { let full = syn(uflow::PROTOCOL_VERSION + 1, 0x5151, 1000, 1_000_000); let mut b = full[..1467].to_vec(); b.extend_from_slice(&[0; 4]); crc_fix(b) }),
         ("SYN config refused (packet too big)", syn(uflow::PROTOCOL_VERSION, 0x5151, 2_000_000, 2_000_000)),
         ("SYN config refused (alloc too small)", syn(uflow::PROTOCOL_VERSION, 0x5151, 10, 10)),
         ("SYN-ACK", fw(Frame::HandshakeSynAckFrame(HandshakeSynAckFrame { nonce_ack: 1, nonce: 2, max_receive_rate: 3, max_packet_size: 4, max_receive_alloc: 5 }))),
